@@ -25,6 +25,7 @@ const (
 // Prog is the loaded program.
 type Prog struct {
 	Dir     string
+	ModPrefix string
 	Fset    *token.FileSet
 	Mod     []*packages.Package          // module packages with Go files, sorted by path
 	All     map[string]*packages.Package // whole import closure
@@ -54,6 +55,18 @@ func Env(extra ...string) []string {
 // Load loads dir.  Any type error, a missing module package or an unresolved
 // anchor fails the load (fail closed).
 func Load(dir string, extraEnv ...string) (*Prog, error) {
+	p, err := LoadModule(dir, ModPath, extraEnv...)
+	if err != nil {
+		return nil, err
+	}
+	if p.Root == nil || p.Field == nil || p.Scalar == nil {
+		return nil, fmt.Errorf("load: expected packages %s, %s, %s; got %d module package(s)", ModPath, FieldPath, ScalarPath, len(p.Mod))
+	}
+	return p, nil
+}
+
+// LoadModule loads any module rooted at dir whose package paths start with modPrefix.
+func LoadModule(dir, modPrefix string, extraEnv ...string) (*Prog, error) {
 	fset := token.NewFileSet()
 	cfg := &packages.Config{
 		Mode:  packages.LoadAllSyntax,
@@ -66,11 +79,11 @@ func Load(dir string, extraEnv ...string) (*Prog, error) {
 	if err != nil {
 		return nil, fmt.Errorf("load: %w", err)
 	}
-	p := &Prog{Dir: dir, Fset: fset, All: map[string]*packages.Package{}}
+	p := &Prog{Dir: dir, ModPrefix: modPrefix, Fset: fset, All: map[string]*packages.Package{}}
 	var errs []string
 	packages.Visit(pkgs, nil, func(pk *packages.Package) {
 		p.All[pk.PkgPath] = pk
-		if strings.HasPrefix(pk.PkgPath, ModPath) {
+		if strings.HasPrefix(pk.PkgPath, modPrefix) {
 			for _, e := range pk.Errors {
 				// A directory that holds only _test files is not a package of the build.
 				if strings.Contains(e.Msg, "no non-test Go files") || strings.Contains(e.Msg, "build constraints exclude all Go files") {
@@ -108,9 +121,6 @@ func Load(dir string, extraEnv ...string) (*Prog, error) {
 			p.Scalar = sp
 		}
 	}
-	if p.Root == nil || p.Field == nil || p.Scalar == nil {
-		return nil, fmt.Errorf("load: expected packages %s, %s, %s; got %d module package(s)", ModPath, FieldPath, ScalarPath, len(p.Mod))
-	}
 	for _, f := range p.ModFuncs() {
 		p.NFuncs++
 		for _, b := range f.Blocks {
@@ -135,7 +145,7 @@ func (p *Prog) InModule(fn *ssa.Function) bool {
 		}
 		return false
 	}
-	return strings.HasPrefix(pk.Pkg.Path(), ModPath)
+	return strings.HasPrefix(pk.Pkg.Path(), p.ModPrefix)
 }
 
 // ModFuncs returns every source-level function and method (including
@@ -213,10 +223,13 @@ func (p *Prog) Pos(pos token.Pos) string {
 
 // ExportedAPI returns the exported functions and the exported methods of
 // exported types of the root package.
-func (p *Prog) ExportedAPI() []*ssa.Function {
+func (p *Prog) ExportedAPI() []*ssa.Function { return p.ExportedAPIOf(p.Root) }
+
+// ExportedAPIOf is ExportedAPI for an arbitrary package of the program.
+func (p *Prog) ExportedAPIOf(pkg *ssa.Package) []*ssa.Function {
 	var out []*ssa.Function
 	for _, f := range p.ModFuncs() {
-		if f.Package() != p.Root || f.Parent() != nil {
+		if f.Package() != pkg || f.Parent() != nil {
 			continue
 		}
 		obj, ok := f.Object().(*types.Func)
